@@ -2,7 +2,7 @@
 // session with a prefilled history, driven through a fake Connection and a real loop (deferred teardown).
 // Every history is replayed inside a crash-contained persistent child (c13::Worker): crashes, sanitizer reports,
 // hangs and uncaught exceptions become violations of the history that was being evaluated.
-// usage: cmd_harness <initial history length> <depth>          history lane (probe, history, !!, !n, exit, ';'-chains)
+// usage: cmd_harness <initial history length> <depth> [part nparts]   history lane (probe, history, !!, !n, exit, ';'-chains)
 //        cmd_harness nav <depth> [part nparts]                   navigation lane: a node tree with directories, a directory cycle and
 //                                                                deleted nodes; cd / ls / tree / pwd / help / paths / !! on it
 //        cmd_harness tok <maxlen> [shard nshards]                tokenizer lane (engine I): every line of length <= maxlen over
@@ -33,7 +33,9 @@ static const char *NAV[] = {"cd d", "cd ..", "cd /", "cd", "cd d/../..", "cd e/u
                             "ls", "ls d", "ls d/f", "ls z", "ls ..", "tree", "tree d", "tree /", "tree d/x", "tree f", "pwd", "help", "help d/f", "help z", "help nope",
                             "d/f x", "/p a", "f y", "x", "e/top/p b", "g", "../p c", "nope", "gone q", "!!", "!0", "history",
                             // paths THROUGH a function / deleted node, command words and help paths that resolve to the root
-                            "p/x", "d/f/q y", "z/q", "ls d/x/y", "cd z/..", "/", ".", "..", "help /", "help ."};
+                            "p/x", "d/f/q y", "z/q", "ls d/x/y", "cd z/..", "/", ".", "..", "help /", "help .",
+                            // a directory node disappears while the session may be inside it (or below it)
+                            "/drop_d", "/drop_e", "/rm_d", "cd .", "tree .."};
 enum { NNAV = sizeof NAV / sizeof NAV[0] };
 static bool g_nav = false;
 static uint32_t g_opts = 0; static bool g_quiet = false, g_echo = false;   // C13_OPTS=echo|quiet: session options of this run
@@ -43,10 +45,19 @@ static const char *cmd_text(int c) { return g_nav ? NAV[c] : CMD[c]; }
 static Args split_sp(const std::string &l) { Args a; size_t p = 0; while (p < l.size()) { size_t q = l.find(' ', p); if (q == std::string::npos) q = l.size(); if (q > p) a.push_back(l.substr(p, q - p)); p = q + 1; } return a; }
 
 // ---- reference node tree of the navigation lane: what a path addresses is decided here, by name --------------------
-enum NodeId { N_ROOT, N_P, N_D, N_F, N_E, N_G, N_X, N_Z, N_NONE };
+enum NodeId { N_ROOT, N_P, N_D, N_F, N_E, N_G, N_X, N_Z, N_DROP_D, N_DROP_E, N_RM_D, N_NONE };
 enum NodeKind { K_DIR, K_FUNC, K_DELETED };
-static NodeKind kind_of(int n) { return (n == N_ROOT || n == N_D || n == N_E) ? K_DIR : (n == N_X || n == N_Z) ? K_DELETED : K_FUNC; }
+// what changes while a session is running: /drop_d and /drop_e delete the directory node d / e WITHOUT unmounting it, /rm_d unmounts d from
+// the root and deletes it - possibly while the session's working directory is that directory or below it
+struct TreeState { bool d_deleted = false, e_deleted = false, d_unmounted = false;
+                   std::string key() const { return std::string(d_deleted ? "D" : "-") + (e_deleted ? "E" : "-") + (d_unmounted ? "U" : "-"); } };
+static TreeState *g_tree = nullptr;    // the tree state of the reference that is being asked (set by CRef)
+static NodeKind kind_of(int n) {
+  if (n == N_X || n == N_Z || (n == N_D && g_tree && g_tree->d_deleted) || (n == N_E && g_tree && g_tree->e_deleted)) return K_DELETED;
+  return (n == N_ROOT || n == N_D || n == N_E) ? K_DIR : K_FUNC; }
 static int child_of(int n, const std::string &name) {
+  if (n == N_ROOT && name == "d" && g_tree && g_tree->d_unmounted) return N_NONE;
+  if (n == N_ROOT && (name == "drop_d" || name == "drop_e" || name == "rm_d")) return name == "drop_d" ? N_DROP_D : name == "drop_e" ? N_DROP_E : N_RM_D;
   if (n == N_ROOT) return name == "p" ? N_P : name == "d" ? N_D : name == "z" ? N_Z : N_NONE;
   if (n == N_D) return name == "f" ? N_F : name == "e" ? N_E : name == "x" ? N_X : N_NONE;
   if (n == N_E) return name == "g" ? N_G : name == "up" ? N_D : name == "top" ? N_ROOT : N_NONE;
@@ -78,11 +89,11 @@ struct Expect { bool error = false, listing = false, has_call = false, exit = fa
                 bool pwd = false; std::string pwd_text;                                      // navigation lane: pwd prints the reference's current directory
                 bool unjudged = false; };                                                    // only the prompt is judged (line follows an adopted chain in the same segment)
 struct CRef {
-  std::deque<std::string> hist; RPath path;
+  std::deque<std::string> hist; RPath path; TreeState tree;
   void store(const std::string &l) { hist.push_back(l); if (hist.size() > 20) hist.pop_front(); }
   // what running one plain command (no '!', no ';', not 'history') does
   void effects(const std::string &e, Expect &x) {
-    Args t = split_sp(e); std::string shape;
+    Args t = split_sp(e); std::string shape; g_tree = &tree;
     if (!g_nav) { if (e == "exit") x.exit = true; else if (t[0] == "p") { x.has_call = true; x.call = t; } else { x.error = true; shape = "unknown-command"; } }
     else if (t[0] == "cd") { RPath np = path; if (resolve(t.size() > 1 ? t[1] : "/", np) && kind_of(top_of(np)) == K_DIR) path = np; shape = "cd-command"; }
     else if (t[0] == "ls" || t[0] == "tree" || t[0] == "help") shape = t[0] + "-command";
@@ -91,7 +102,10 @@ struct CRef {
       RPath np = path; bool found = resolve(t[0], np);
       if (!found) { x.error = true; shape = "path-that-does-not-resolve"; }
       else if (kind_of(top_of(np)) == K_DELETED) { x.error = true; shape = "path-to-a-deleted-node"; }
-      else if (kind_of(top_of(np)) == K_FUNC) { x.has_call = true; x.call = t; shape = "function-path"; }
+      else if (kind_of(top_of(np)) == K_FUNC) { x.has_call = true; x.call = t; shape = "function-path";
+        int fn = top_of(np);   // the functions that change the tree (after their call has been recorded)
+        if (fn == N_DROP_D || fn == N_RM_D) { tree.d_deleted = true; shape = "function-that-deletes-a-directory-node"; } if (fn == N_RM_D) tree.d_unmounted = true;
+        if (fn == N_DROP_E) { tree.e_deleted = true; shape = "function-that-deletes-a-directory-node"; } }
       else { path = np; shape = "bare-directory-path"; }
     }
     if (x.shape.empty()) x.shape = shape;
@@ -157,6 +171,12 @@ struct World {
       term.mountNode(e, probe, "g"); term.mountNode(e, d, "up"); term.mountNode(e, term.rootNode(), "top");
       term.mountNode(d, probe, "gone"); term.mountNode(e, d, "gone"); term.umountNode(d, "gone"); term.umountNode(e, "gone");   // unmounted again: the name must not resolve
       term.deleteNode(x); term.deleteNode(z);
+      Terminal *t = &term; NodeToken root = term.rootNode();
+      auto mk = [&](const char *name, std::function<void()> act) {
+        auto n = term.createFuncNode([act](const Session &s, const Args &a) { g_calls.push_back({a, g_conn->out.size()}); s.send("ok\r\n"); act(); }, name); term.mountNode(root, n, name); };
+      mk("drop_d", [t, d] { t->deleteNode(d); });                               // deleted, still mounted as /d and as /d/e/up
+      mk("drop_e", [t, e] { t->deleteNode(e); });
+      mk("rm_d", [t, d, root] { t->umountNode(root, "d"); t->deleteNode(d); });    // unmounted from the root and deleted (still mounted as e/up)
     }
     g_conn = &c; st = term.newSession(&c); if (g_opts) term.setOptions(st, g_opts); term.onBegin(st);
   }
@@ -257,7 +277,7 @@ static std::string replay(const std::vector<Op> &h, std::string &viol) {
   if (!w.alive) canon = "ended";
   else if (w.term.impl_->sessions_.at(w.st) == nullptr) canon = "ended-after-violation";
   else { SessionContext *s = w.term.impl_->sessions_.at(w.st); canon = VF_GET(curr_input, *s, std::string()) + "|" + std::to_string(VF_GET(cursor, *s, (size_t)0)) + "|" + std::to_string(VF_GET(history_index, *s, (size_t)0)) + "|"; for (auto &x : s->history) canon += x + ","; canon += "|" + std::to_string(w.ref.hist.size());
-         canon += "|" + path_names(*s, 0) + "|" + path_text(w.ref.path); }
+         canon += "|" + path_names(*s, 0) + "|" + path_text(w.ref.path) + "|" + w.ref.tree.key(); }
   if (ok) pump(g_loop);   // nothing may stay queued into the next replay
   return canon;
 }
@@ -390,7 +410,7 @@ int main(int argc, char **argv) {
     std::vector<Op> h; for (size_t i = 0; i + 1 < job.size(); i += 2) h.push_back({job[i], job[i + 1]});
     std::string v, c = replay(h, v); std::string r = c; r.push_back('\0'); r += v; return r; };
   hx::Explorer<Op> ex; ex.name = g_nav ? std::string("cmd:nav") : "cmd:hist" + std::to_string(g_L); ex.deadline_s = deadline(600);
-  if (g_nav && argc > 4) { ex.part = atoi(argv[3]); ex.nparts = atoi(argv[4]); ex.name += ":part" + std::to_string(ex.part); }
+  if (argc > 4) { ex.part = atoi(argv[3]); ex.nparts = atoi(argv[4]); if (ex.nparts > 1) ex.name += ":part" + std::to_string(ex.part); }   // partition by the first command
   if (!opts.empty()) ex.name += ":" + opts;
   ex.show = [](const Op &o) { return std::string(o.glue ? "+" : "") + "'" + cmd_text(o.c) + "'"; };
   ex.menu = [&](const std::vector<Op> &h) { std::vector<Op> m; for (int g = 0; g < ((h.empty() || g_nav || g_quiet) ? 1 : 2); g++) for (int c = 0; c < (g_nav ? (int)NNAV : (int)NCMD); c++) m.push_back({c, g}); return m; };
